@@ -212,14 +212,31 @@ func (p *Proxy) call(ctx context.Context, m *GoMethod, args ...Object) Object {
 		if err != nil {
 			return TypeErrorf("type error: failed to convert argument %d in %s() call: %s", i, methodName, err)
 		}
-		inputs = append(inputs, reflect.ValueOf(input))
+		inValue := reflect.ValueOf(input)
+		paramType := m.method.Type.In(i)
+		if !inValue.IsValid() {
+			inValue = reflect.Zero(paramType)
+		} else if !inValue.Type().AssignableTo(paramType) {
+			return TypeErrorf("type error: failed to convert argument %d in %s() call: cannot use %s as %s",
+				i, methodName, inValue.Type(), paramType)
+		}
+		inputs = append(inputs, inValue)
 		argIndex++
 	}
 	if len(inputs) < minArgs {
 		return ArgsErrorf("args error: %s() requires %d arguments, but %d were given",
 			methodFullName, minArgs, len(inputs))
 	}
-	outputs := m.method.Func.Call(inputs)
+	var outputs []reflect.Value
+	if isVariadic {
+		// the variadic tail is given as one list
+		if len(inputs) == numIn-1 {
+			inputs = append(inputs, reflect.Zero(m.method.Type.In(numIn-1)))
+		}
+		outputs = m.method.Func.CallSlice(inputs)
+	} else {
+		outputs = m.method.Func.Call(inputs)
+	}
 	if len(outputs) == 0 {
 		return Nil
 	}
